@@ -201,8 +201,11 @@ loop_invariant(f"{C}::Calibrator.calibrate", 1, over="range(n_batches)", var="b"
                ],
                props=["C02", "C14", "C11"])
 
-loop_invariant(f"{C}::Calibrator.calibrate", 2, over="new_simulated_data", var="q",
-               inv=["len(new_losses) == q"], props=["C02"])
+loop_invariant(f"{C}::Calibrator.calibrate", 2, over="new_simulated_data", var="q", locals={"new_losses": "real"},
+               inv=["len(new_losses) == q",
+                    # the q-th loss is the loss of exactly the q-th block of series against the real data
+                    "forall(range(0, q), lambda r: new_losses[r] == closs(self.loss_function, new_simulated_data[r], self.real_data))"],
+               props=["C02"])
 
 from pyvc.api import stmt_contract  # noqa: E402
 
@@ -215,6 +218,31 @@ stmt_contract(f"{C}::Calibrator.calibrate",
                        "lambda j: self.losses_samp[i] <= self.losses_samp[j]), "
                        "converged == (np_round(self.losses_samp[i], self.convergence_precision) == 0)))"],
               props=["C14"])
+
+# C02 "row i holds ...": at the moment a batch is recorded, its rows are exactly the proposed vectors, the series the
+# model returned for exactly those vectors (simulate_model's contract), the loss of exactly those series, the index of
+# the batch and the id of the designated sampler.  (Rows once recorded never change: loop invariant above.)
+_N0 = "before(self.n_sampled_params)"
+stmt_contract(f"{C}::Calibrator.calibrate",
+              match="new_simulated_data = self.simulate_model(new_params)", label="series-of-exactly-the-proposed-vectors",
+              ensures=["forall(range(0, new_params.shape[0]), lambda i: forall(range(0, self.ensemble_size), lambda e: "
+                       "forall(range(0, self.N), lambda t: forall(range(0, self.D), lambda c: "
+                       "new_simulated_data[i, e, t, c] == mout(self.model, new_params[i], self.N, "
+                       "spec_draw_int(rng_iter(before(self.random_generator.state), i * self.ensemble_size + e), 0, 2**32 - 1), t, c)))))"],
+              props=["C02"])
+stmt_contract(f"{C}::Calibrator.calibrate",
+              match="self.n_sampled_params = self.n_sampled_params + len(new_params)", label="recorded-rows-are-this-batch",
+              ensures=[
+                  f"forall(range(0, new_params.shape[0]), lambda i: forall(range(0, new_params.shape[1]), lambda d: "
+                  f"self.params_samp[{_N0} + i, d] == new_params[i, d]))",
+                  f"forall(range(0, new_params.shape[0]), lambda i: forall(range(0, self.ensemble_size), lambda e: "
+                  f"forall(range(0, self.N), lambda t: forall(range(0, self.D), lambda c: "
+                  f"self.series_samp[{_N0} + i, e, t, c] == new_simulated_data[i, e, t, c]))))",
+                  f"forall(range(0, new_params.shape[0]), lambda i: self.losses_samp[{_N0} + i] == "
+                  f"closs(self.loss_function, new_simulated_data[i], self.real_data))",
+                  f"forall(range(0, new_params.shape[0]), lambda i: self.batch_num_samp[{_N0} + i] == self.current_batch_index "
+                  f"and self.method_samp[{_N0} + i] == self.samplers_id_table[type(method).__name__])",
+              ], props=["C02", "C18"])
 
 # ---- constructor: establishes the history invariant --------------------------------------------------------------
 contract(f"{C}::Calibrator._validate_convergence_precision", params={"convergence_precision": "int"}, returns="int",
